@@ -2,6 +2,7 @@ import Proofs.FilterInter2
 import Proofs.FilterHeader
 import Proofs.FilterPhrase
 import Generated.C11
+import Proofs.FilterSearchGraph
 /-!
 # C11 — Filtering keeps exactly the n-grams a restricted decoder can query
 
@@ -404,6 +405,106 @@ theorem phrase_sound_max_order (sents : List (List (List Bytes))) (s : Nat) (g a
     (_hlen : g.length = KV.Gen.C11.kenlmMaxOrder) (hp : a ++ g ++ b ∈ sents.getD s []) :
     graphAccept sents s g = true :=
   phrase_sound sents s g (Or.inl ⟨_, hp, a, b, rfl⟩)
+
+/-! ## the lazy search of lm/filter/phrase.cc (round 5)
+
+`Model/FilterPhraseSearch.lean` models `Arc::LowerBound`, `Vertex::LowerBound` (priority queue by
+current candidate) and the `Evaluate` loops of `phrase::Union` / `phrase::Multiple` over the arcs
+of `BuildGraph` (`buildGraph`, semantic tables).  `PAcc arcs v s`: some path of arcs that all
+contain sentence `s` ends at vertex `v`.  `Good arcs σ L`: every arc's remaining range is a suffix
+of its sentence list and still holds every sentence `≥ L` that its source vertex accepts. -/
+
+/-- **lowerBound_spec**: from a `Good` state with low-water mark `L ≤ to`, `Vertex::LowerBound(v, to)`
+(nesting depth `d > v`: fuel proved sufficient) leaves the state `Good` at `to`, does not touch arcs
+into higher vertices, and returns `none` only if no sentence `≥ to` is accepted at `v`, else some
+`c ≥ to` such that nothing in `[to, c)` is accepted and `c` itself is accepted when `c = to`. -/
+theorem lowerBound_spec (arcs : List PArc) (hw : WFG arcs) (d v : Nat) (hv : v < d)
+    (σ : PState) (L to : Nat) (hg : Good arcs σ L) (hl : L ≤ to) :
+    Good arcs (vertexLB false arcs d v to σ).2 to ∧
+    (∀ (j : Nat) (b : PArc), arcs[j]? = some b → v < b.to → restOf (vertexLB false arcs d v to σ).2 j = restOf σ j) ∧
+    match (vertexLB false arcs d v to σ).1 with
+    | none => ∀ s, to ≤ s → ¬ PAcc arcs v s
+    | some c => to ≤ c ∧ (c = to → PAcc arcs v to) ∧ (∀ s, to ≤ s → s < c → ¬ PAcc arcs v s) ∧ (c = to ∨ c ≤ maxSent arcs) :=
+  KV.Filter.lowerBound_spec hw d v hv σ L to hg hl
+
+/-- the graph `BuildGraph` builds is well-formed and accepts exactly what `graphAccept` accepts -/
+theorem buildGraph_accepts (sents : List (List (List Bytes))) (s : Nat) (g : List Bytes) :
+    WFG (buildGraph sents g) ∧ (PAcc (buildGraph sents g) (g.length - 1) s ↔ graphAccept sents s g = true) :=
+  ⟨buildGraph_wf sents g, acc_iff_graphAccept sents s g⟩
+
+/-- **phrase_multi_correct**: `phrase::Multiple::Evaluate` reports exactly `{s | graphAccept s}`,
+each once, in increasing order -/
+theorem phrase_multi_correct (sents : List (List (List Bytes))) (g : List Bytes) :
+    let arcs := buildGraph sents g
+    let out := multiEval false arcs (g.length - 1) (maxSent arcs + 2) 0 (initState arcs)
+    (∀ s, s ∈ out ↔ graphAccept sents s g = true) ∧ out.Pairwise (· < ·) := by
+  obtain ⟨h1, h2⟩ := multiEval_correct (buildGraph_wf sents g) (g.length - 1)
+  exact ⟨fun s => by rw [h1 s, acc_iff_graphAccept], h2⟩
+
+/-- **phrase_union_correct**: `phrase::Union::Evaluate` answers true iff some sentence is accepted -/
+theorem phrase_union_correct (sents : List (List (List Bytes))) (g : List Bytes) :
+    let arcs := buildGraph sents g
+    unionEval false arcs (g.length - 1) (maxSent arcs + 2) 0 (initState arcs) = true ↔
+      ∃ s, graphAccept sents s g = true := by
+  simp only
+  rw [unionEval_correct (buildGraph_wf sents g) (g.length - 1)]
+  exact ⟨fun ⟨s, h⟩ => ⟨s, (acc_iff_graphAccept sents s g).mp h⟩, fun ⟨s, h⟩ => ⟨s, (acc_iff_graphAccept sents s g).mpr h⟩⟩
+
+/-- the model of the lazy search and the declarative graph model are the same function (so the
+driver's `.search<k>` and `.graph<k>` files coincide by theorem, not only by test) -/
+theorem phrase_search_eq_graph (sents : List (List (List Bytes))) (ws : List Bytes) :
+    phraseSearch false sents ws = phraseVerdict sents ws :=
+  phraseSearch_eq_graph sents ws
+
+/-- **the property's phrase clause end to end**: an n-gram that can be read off a concatenation
+of the phrases of sentence `s` is sent to output `s` by the model of the real search -/
+theorem phrase_end_to_end (sents : List (List (List Bytes))) (ws : List Bytes) (s : Nat) (hs : s < sents.length)
+    (h : Tiles (sents.getD s []) (phraseWords ws)) :
+    phraseSearch false sents ws = .all ∨ ∃ ks, phraseSearch false sents ws = .only ks ∧ s ∈ ks := by
+  rw [phrase_search_eq_graph]
+  exact phrase_sound_multiple sents ws s hs h
+
+theorem phrase_end_to_end_union (sents : List (List (List Bytes))) (ws : List Bytes) (s : Nat) (_hs : s < sents.length)
+    (h : Tiles (sents.getD s []) (phraseWords ws)) : phraseSearchUnion false sents ws = .all := by
+  unfold phraseSearchUnion
+  by_cases hg : phraseWords ws = []
+  · simp [hg]
+  · simp only [hg, if_false]
+    have := (phrase_union_correct sents (phraseWords ws)).mpr ⟨s, phrase_sound sents s _ h⟩
+    rw [this]; rfl
+
+/-! ### Old: the search of seeded change C11-1 ("advance the source vertex to the candidate
+straight away", `mutant = true`) does not meet `lowerBound_spec` -/
+namespace OldSearch
+
+def sents6 : List (List (List Bytes)) :=
+  [[[[98]]], [[[99]], [[100]]], [[[122]]], [[[97]], [[98], [99]], [[100]]], [[[122]], [[121]]], [[[97]], [[98]]]]
+def g4 : List Bytes := [[97], [98], [99], [100]]
+
+/-- on the six-sentence file of seeded/C11-1 and the n-gram `a b c d`: the state after the
+first `LowerBound(0)` of the correct code is `Good`; the mutant's `LowerBound(1)` from it drops
+sentence 3 from the right-aligned arc for `a` although it is valid there -/
+theorem lowerBound_spec_fails_mutant :
+    ¬ (∀ (arcs : List PArc), WFG arcs → ∀ (d v : Nat), v < d → ∀ (σ : PState) (L to : Nat), Good arcs σ L → L ≤ to →
+        Good arcs (vertexLB true arcs d v to σ).2 to) := by
+  intro h
+  have hw := buildGraph_wf sents6 g4
+  have hg1 := (KV.Filter.lowerBound_spec hw 4 3 (by omega) (initState (buildGraph sents6 g4)) 0 0 good_init (Nat.le_refl _)).1
+  have hbad := h (buildGraph sents6 g4) hw 4 3 (by omega) _ 0 1 hg1 (by omega)
+  have harc : (buildGraph sents6 g4)[0]? = some ⟨none, 0, [3, 5]⟩ := by decide
+  have hmem := hbad.keep 0 _ harc 3 ⟨by decide, Or.inl rfl⟩ (by omega)
+  have hrest : restOf (vertexLB true (buildGraph sents6 g4) 4 3 1
+      (vertexLB false (buildGraph sents6 g4) 4 3 0 (initState (buildGraph sents6 g4))).2).2 0 = [5] := by decide
+  rw [hrest] at hmem
+  simp at hmem
+
+/-- … and consequently `Evaluate` loses the n-gram for sentence 3, which the graph accepts -/
+theorem multi_wrong_mutant :
+    multiEval true (buildGraph sents6 g4) 3 (maxSent (buildGraph sents6 g4) + 2) 0 (initState (buildGraph sents6 g4)) = [] ∧
+    multiEval false (buildGraph sents6 g4) 3 (maxSent (buildGraph sents6 g4) + 2) 0 (initState (buildGraph sents6 g4)) = [3] ∧
+    graphAccept sents6 3 g4 = true := by decide
+
+end OldSearch
 
 /-- the lower bound the checks enforce is implied by the graph model (so "tool = graph model"
 on a run implies "tool ⊇ Tiles" on that run) -/
